@@ -25,7 +25,7 @@ type UnitResult struct {
 func (e *Engine) newUnit(name string, fn *ssa.Function, con *Contract) *Unit {
 	u := &Unit{e: e, c: NewTermCtx(), fn: fn, con: con, name: shortName(name), invDone: map[string]bool{}, counters: map[string]int{},
 		usedTrusted: map[string]bool{}, pureApps: map[string]bool{}, mapAxDone: map[string]bool{},
-		globalVals: map[string]*SV{}, closures: map[*Term]*closureVal{}}
+		globalVals: map[string]*SV{}, closures: map[*Term]*closureVal{}, usedContracts: map[string]bool{}}
 	u.alloc0 = u.c.Const("alloc0", SInt)
 	u.assume(nil, u.c.Le(u.c.Int(1), u.alloc0))
 	u.entry = &State{heap: map[string]*Term{}, alloc: u.alloc0, iters: map[ssa.Value]*iterState{}}
@@ -95,6 +95,7 @@ func (e *Engine) VerifyFunction(name string) (res *UnitResult) {
 		// captured variables are live cells
 		u.assume(nil, c.Neq(fvs[len(fvs)-1].T, c.Nil()))
 	}
+	u.args, u.fvs = args, fvs
 	env := u.unitEnv(con, fn, args, fvs, st, pc)
 	u.entryEnv = env
 	// preconditions
@@ -120,25 +121,42 @@ func (e *Engine) VerifyFunction(name string) (res *UnitResult) {
 	}
 	entrySnap := st.clone()
 	rets := u.runBody(fn, args, fvs, st, pc, true, con, false)
-	// postconditions at every return
+	// postconditions, checked once on the merge of all return points
 	sig := fn.Signature
-	for ri, r := range rets {
-		post := u.unitEnv(con, fn, args, fvs, r.st, r.guard)
+	if len(rets) > 0 {
+		var edges []edge
+		for _, r := range rets {
+			edges = append(edges, edge{nil, r.guard, r.st})
+		}
+		rg, rst := u.mergeStates(edges)
+		vals := make([]*SV, sig.Results().Len())
+		for i := range vals {
+			var acc *SV
+			for j := len(rets) - 1; j >= 0; j-- {
+				if acc == nil {
+					acc = rets[j].vals[i]
+				} else {
+					acc = u.iteSV(rets[j].guard, rets[j].vals[i], acc)
+				}
+			}
+			vals[i] = acc
+		}
+		u.retState, u.retVals = rst.clone(), vals
+		post := u.unitEnv(con, fn, args, fvs, rst, rg)
 		oe := *env
 		oe.st = entrySnap
 		post.old = &oe
-		u.bindResults(post, sig, r.vals)
+		u.bindResults(post, sig, vals)
 		for i, en := range con.Ensures {
 			p := u.evalClause(post, en)
 			label := en.Label
 			if label == "" {
 				label = fmt.Sprintf("%d", i)
 			}
-			if len(rets) > 1 {
-				label = fmt.Sprintf("%s@ret%d", label, ri)
-			}
-			u.oblige("post", label, en.Tags, r.guard, p, "postcondition: "+en.Src, fn.Pos())
+			u.oblige("post", label, en.Tags, rg, p, "postcondition: "+en.Src, fn.Pos())
 		}
+		cov := u.oblige("cover", "return", nil, rg, c.True(), "some return is reachable", fn.Pos())
+		cov.Cover = true
 	}
 	return res
 }
